@@ -575,6 +575,66 @@ theorem bollinger_dev_is_std (sqrt : Rat → Rat) (p : Nat) (hp : 0 < p) (xs : L
 /-- non-vacuity: var(period 2) of 1, 3, 7 is 1 and 4 -/
 example : var 2 1 [1, 3, 7] = [none, some 1, some 4] := by decide +kernel
 
+/-- CCI: every defined value is `(tp − mean) / (0.015 · mean absolute deviation)` of the trailing window of typical
+    prices — and 0 where the deviation is 0 (the guard of `calculate_cci_loop`) -/
+theorem cci_def (p : Nat) (hp0 : 0 < p) (cs : List Candle) (i : Nat) (v : Rat) (h : (cci p cs)[i]? = some (some v)) :
+    ∃ t, (cs.map tpOf)[i]? = some t ∧ p ≤ i + 1 ∧
+      let w := window p i (cs.map tpOf)
+      let md := sum (w.map (fun x => Jesse.Ind.abs (x - sum w / (p : Rat)))) / (p : Rat)
+      (md = 0 → v = 0) ∧ (md ≠ 0 → v = Spec.Ind.cciOf t (sum w / (p : Rat)) md) := by
+  have hi : i < (cs.map tpOf).length := by
+    by_contra hc
+    have : (cci p cs).length = (cs.map tpOf).length := by simp [cci, trailing, length_pmap]
+    rw [List.getElem?_eq_none (by omega)] at h; cases h
+  unfold cci at h
+  rw [trailing_getElem? _ _ _ _ hi] at h
+  by_cases hpi : i + 1 < p
+  · simp [hpi] at h
+  · simp only [hpi, if_false] at h
+    have hw := h
+    unfold cciWin at hw
+    -- the last row of the window is row i
+    have hlast : (window p i (cs.map tpOf)).getLast? = (cs.map tpOf)[i]? := by
+      unfold window
+      rw [List.getLast?_eq_getElem?]
+      have hl : ((List.drop (i + 1 - p) (cs.map tpOf)).take p).length = min p ((cs.map tpOf).length - (i + 1 - p)) := by simp
+      rw [hl, List.getElem?_take, List.getElem?_drop]
+      have hmin : min p ((cs.map tpOf).length - (i + 1 - p)) = p := by omega
+      rw [hmin, if_pos (by omega)]
+      congr 1; omega
+    rw [hlast, List.getElem?_eq_getElem hi] at hw
+    refine ⟨(cs.map tpOf)[i], List.getElem?_eq_getElem hi, by omega, ?_⟩
+    simp only at hw
+    refine ⟨?_, ?_⟩
+    · intro hz
+      rw [if_pos hz] at hw
+      exact (Option.some.inj (Option.some.inj hw)).symm
+    · intro hnz
+      rw [if_neg hnz] at hw
+      exact (Option.some.inj (Option.some.inj hw)).symm
+
+/-- TRIMA: the normalised triangular weights sum to one — the value is a weighted MEAN of the window -/
+theorem sum_map_div (l : List Rat) (s : Rat) : sum (l.map (· / s)) = sum l / s := by
+  induction l with
+  | nil => simp [sum]
+  | cons x xs ih =>
+    have e1 : sum ((x :: xs).map (· / s)) = x / s + sum (xs.map (· / s)) := rfl
+    have e2 : sum (x :: xs) = x + sum xs := rfl
+    rw [e1, e2, ih]; ring
+
+theorem trima_weights_sum_one (p : Nat) (h : sum (trimaWeights p) ≠ 0) :
+    sum ((trimaWeights p).map (· / sum (trimaWeights p))) = 1 := by
+  rw [sum_map_div]; exact div_self h
+
+/-- TRIMA: every defined value is the dot product of its trailing window with the normalised triangular weights -/
+theorem trima_def (p : Nat) (xs : List Rat) (i : Nat) (hi : i < xs.length) (hpi : p ≤ i + 1) :
+    (trima p xs)[i]? = some (some (dot (window p i xs) ((trimaWeights p).map (· / sum (trimaWeights p))))) := by
+  unfold trima
+  rw [trailing_getElem? _ _ _ _ hi, if_neg (by omega)]
+
+/-- non-vacuity: the triangular weights of periods 4 and 5 are 1 2 2 1 and 1 2 3 2 1 -/
+example : trimaWeights 4 = [1, 2, 2, 1] ∧ trimaWeights 5 = [1, 2, 3, 2, 1] := by decide +kernel
+
 /-! ### homogeneity: price-homogeneous averages scale linearly with the price -/
 
 /-- `sma(c·x) = c·sma(x)` -/
